@@ -76,6 +76,7 @@ type History struct {
 	Instances []InstCfg `json:"instances"`
 	Steps     []Step    `json:"steps"`
 	Drain     bool      `json:"drain,omitempty"` // C20: run the bounded-liveness drain phase afterwards
+	Obs       int       `json:"obs,omitempty"`   // C11: 0 = observe after every step, 1 = after every 4th step, 2 = only through explicit read steps and at the end
 	Violation *Viol     `json:"violation,omitempty"`
 }
 
@@ -83,6 +84,7 @@ type Viol struct {
 	Key    string `json:"key"`    // stable identity: operation kind x violated clause (x argument class)
 	Step   int    `json:"step"`   // index of the failing step (len(steps)+k for the drain phase)
 	Detail string `json:"detail"` // human-readable
+	Inst   int    `json:"inst"`   // instance the violation was observed on
 }
 
 func (v *Viol) Error() string { return fmt.Sprintf("%s at step %d: %s", v.Key, v.Step, v.Detail) }
@@ -108,8 +110,11 @@ func shrink(h History, run func(History) *Viol, shrinkArgs func(Step) []Step) Hi
 		}
 	}
 	// keep only the instance the failing step belongs to
-	if len(h.Instances) > 1 && h.Violation.Step >= 0 && h.Violation.Step < len(h.Steps) {
-		keep := h.Steps[h.Violation.Step].Inst
+	if len(h.Instances) > 1 && ((h.Violation.Step >= 0 && h.Violation.Step < len(h.Steps)) || (h.Violation.Inst >= 0 && h.Violation.Inst < len(h.Instances))) {
+		keep := h.Violation.Inst
+		if h.Violation.Step >= 0 && h.Violation.Step < len(h.Steps) {
+			keep = h.Steps[h.Violation.Step].Inst
+		}
 		c := h
 		c.Instances = []InstCfg{h.Instances[keep]}
 		c.Steps = nil
@@ -158,7 +163,9 @@ func shrink(h History, run func(History) *Viol, shrinkArgs func(Step) []Step) Hi
 	}
 	// shrink arguments
 	if shrinkArgs != nil {
-		for changed := true; changed; {
+		// at most two passes: the alternatives are not ordered, so an unbounded
+		// fixpoint loop could flip between two equally failing arguments forever
+		for pass, changed := 0, true; changed && pass < 2; pass++ {
 			changed = false
 			for i := range h.Steps {
 				for _, alt := range shrinkArgs(h.Steps[i]) {
